@@ -8,6 +8,7 @@ import (
 	"runtime"
 	"strings"
 	"sync"
+	"sync/atomic"
 	"time"
 
 	lime "github.com/takenet/lime-go"
@@ -23,6 +24,7 @@ type c13Case struct {
 	S2C        int    `json:"s2c"`        // envelopes the server side sends
 	AfterSends int    `json:"afterSends"` // terminate once this many sends (both directions together) have completed; 0 = at once
 	Real       bool   `json:"real,omitempty"`
+	PeerStuck  bool   `json:"peerStuck,omitempty"` // client-close only: the server's dispatch loop is stuck in a handler, so the client's finishing envelope is not answered in time
 }
 
 type c13Obs struct {
@@ -76,12 +78,19 @@ type c13Server struct {
 	mux      *lime.EnvelopeMux
 	handled  int
 	estCh    chan *lime.ServerChannel
+	stuck    atomic.Value // chan struct{}: while set, the message handler does not return
 }
 
 func newC13Server(chanBuf int, tlsOnly bool) *c13Server {
 	s := &c13Server{mux: &lime.EnvelopeMux{}, estCh: make(chan *lime.ServerChannel, 16)}
 	count := func() { s.mu.Lock(); s.handled++; s.mu.Unlock() }
-	s.mux.MessageHandlerFunc(nil, func(context.Context, *lime.Message, lime.Sender) error { count(); return nil })
+	s.mux.MessageHandlerFunc(nil, func(context.Context, *lime.Message, lime.Sender) error {
+		count()
+		if g, _ := s.stuck.Load().(chan struct{}); g != nil {
+			<-g
+		}
+		return nil
+	})
 	s.mux.NotificationHandlerFunc(nil, func(context.Context, *lime.Notification) error { count(); return nil })
 	s.mux.RequestCommandHandlerFunc(nil, func(context.Context, *lime.RequestCommand, lime.Sender) error { count(); return nil })
 	s.mux.ResponseCommandHandlerFunc(nil, func(context.Context, *lime.ResponseCommand, lime.Sender) error { count(); return nil })
@@ -201,6 +210,9 @@ func judgeC13(c *c13Case, obs *c13Obs, o *Outcome) {
 	o.Class("transport=" + c.Transport)
 	o.Class("wiring=" + c.Wiring)
 	o.Class("initiator=" + c.Initiator)
+	if c.PeerStuck {
+		o.Class("peer-stuck-in-handler")
+	}
 	if c.Real {
 		o.Class("real-sockets")
 	}
@@ -249,7 +261,13 @@ func judgeC13(c *c13Case, obs *c13Obs, o *Outcome) {
 		}
 	}
 	// (3) the initiator's connection is closed by the terminating call
-	if c.Initiator != "server-close" {
+	if c.Initiator == "client-close" {
+		// Client.Close is the last the application can do with this client: its connection is released whether or not the
+		// session could be finished in an orderly way
+		if obs.InitiatorConnAtRet {
+			o.Fail("C13/initiator-still-connected/"+key, "a connection dialled by the Client was still connected when Client.Close returned (%q)", obs.TermErr)
+		}
+	} else if c.Initiator != "server-close" {
 		if obs.InitiatorConnAtRet && obs.TermErr == "" {
 			o.Fail("C13/initiator-still-connected/"+key, "Transport.Connected() of the initiator was still true when %s returned", c.Initiator)
 		}
